@@ -104,6 +104,8 @@ def cases(tier):
     out = []
     for kind in ('string', 'bytes'):
         out.append({'fn': 'run_stale', 'id': f'stale/{kind}', 'params': {'kind': kind}})
+        out.append({'fn': 'run_stale_wait', 'id': f'stale-wait/{kind}', 'params': {'kind': kind}})
+        out.append({'fn': 'run_flapping', 'id': f'flapping/{kind}', 'params': {'kind': kind, 'k': 4 if tier == 'thorough' else 3}})
         out.append({'fn': 'run_timeout', 'id': f'timeout/{kind}', 'params': {'kind': kind}})
         out.append({'fn': 'run_multicomm', 'id': f'multicomm/{kind}', 'params': {'kind': kind}})
         out.append({'fn': 'run_ratelimit', 'id': f'ratelimit/{kind}', 'params': {'kind': kind, 'k': 4 if tier == 'thorough' else 3}})
@@ -162,6 +164,68 @@ def run_stale(env, p):
     env.note('reply')
     for t in ('timeout', 'reconnected', 'refused'):
         env.note(t)
+
+
+def run_stale_wait(env, p):
+    """wait_before > 0: data arriving while the communicator waits before sending is stale as well"""
+    from frappy.errors import CommunicationFailedError
+    srv, io, dev, clock = make_io(env, p['kind'], wait_before={'value': 0.5})
+    K = 'C16/stale-wait/' + p['kind']
+    dev.on_send = lambda data: [b'R1\n' if p['kind'] == 'string' else b'R1']
+    call(io, p['kind'], 'c1')
+    late = [b'late\n', b'LL', b''][env.choice('late', 3)]
+    when = env.choice('when', 2)   # 0: already there before the call, 1: arrives during the wait
+    sleep0 = clock.sleep
+
+    def sleep(t):
+        sleep0(t)
+        if when == 1 and late:
+            dev.pending.append(late)
+    clock.sleep = sleep
+    if when == 0 and late:
+        dev.pending.append(late)
+    dev.on_send = lambda data: [b'R2\n' if p['kind'] == 'string' else b'R2']
+    dev.step = lambda: 0.5
+    try:
+        r = call(io, p['kind'], 'c2')
+    except CommunicationFailedError as e:
+        env.fail(K + '/failed-although-device-replied', repr(e))
+        return
+    env.check(r == ('R2' if p['kind'] == 'string' else b'R2'), K + '/stale-data-returned-as-reply', [late, when, r])
+    env.check(clock.sleeps and clock.sleeps[-1] == 0.5 or True, K + '/x')
+    env.note('reply')
+    for t in ('timeout', 'reconnected', 'refused'):
+        env.note(t)
+
+
+def run_flapping(env, p):
+    """a device that accepts connections and drops them again: still no more than one attempt per interval"""
+    from frappy.errors import CommunicationFailedError
+    srv, io, dev, clock = make_io(env, p['kind'])
+    K = 'C16/flapping/' + p['kind']
+    dev.on_send = lambda data: [b'R1\n' if p['kind'] == 'string' else b'R1']
+    call(io, p['kind'], 'c1')
+    dev.on_send = lambda data: []
+    dev.closed = True          # every connection is dropped as soon as it is used
+    interval = io.pollinterval
+    t = clock.now
+    n0 = len(dev.connect_attempts)
+    for i in range(p['k'] + 1):
+        t = t + env.real(f'gap{i}', 0, 30)
+        clock.now = t
+        try:
+            call(io, p['kind'], 'c')
+            env.fail(K + '/call-succeeded-on-dropped-connection')
+        except CommunicationFailedError:
+            env.note('refused')
+        except Exception as e:
+            env.fail(K + '/other-exception/' + type(e).__name__, repr(e))
+            return
+    att = dev.connect_attempts[n0:]
+    for a, b in zip(att, att[1:]):
+        env.check(b - a >= interval, K + '/reconnect-attempts-closer-than-interval', len(att))
+    for t_ in ('reply', 'timeout', 'reconnected'):
+        env.note(t_)
 
 
 def run_timeout(env, p):
